@@ -325,7 +325,8 @@ def l1_recv(pid, tier, seed):
 
 
 def l1_session(pid, tier, seed):
-    """exhaustive TLC run of Session.tla; Session.seed.cfg (decision taken when the subscribe is initiated) MUST fail"""
+    """exhaustive TLC run of Session.tla; Session.seed.cfg (decision taken when the subscribe is initiated) and
+    Session.seed2.cfg (on_connack only clears the Session Present flag: a refused attempt leaves a stale 0) MUST fail"""
     out = dict(name="L1 Session.tla", states=0, transitions=0, violations=0, runs=[], samples=[])
     r = run_model("Session.tla", "Session.cfg", ["Session.tla"], workers=4)
     out["states"] += r["distinct"]; out["transitions"] += r["generated"]
@@ -333,11 +334,12 @@ def l1_session(pid, tier, seed):
     for inv in r["violated"]:
         out["violations"] += 1
         log("VIOLATION property=%s replay=%s model=Session.cfg invariant=%s" % (pid, r["replay"], inv))
-    r = run_model("Session.tla", "Session.seed.cfg", ["Session.tla"], workers=4)
-    out["runs"].append({k: r[k] for k in ("cfg", "generated", "distinct", "depth", "violated", "wall", "cached")})
-    if not r["violated"]:
-        raise CheckError("model self-test: Session.seed.cfg was NOT caught by the model invariants")
-    out["samples"].append(dict(model="Session.tla", note="CONNACK(sp) x update_session_state from both paths x subscribes in flight"))
+    for bad in ("Session.seed.cfg", "Session.seed2.cfg"):
+        r = run_model("Session.tla", bad, ["Session.tla"], workers=4)
+        out["runs"].append({k: r[k] for k in ("cfg", "generated", "distinct", "depth", "violated", "wall", "cached")})
+        if not r["violated"]:
+            raise CheckError("model self-test: %s was NOT caught by the model invariants" % bad)
+    out["samples"].append(dict(model="Session.tla", note="CONNACK(sp) / refused attempts x update_session_state from both paths x subscribes in flight"))
     return out
 
 
